@@ -11,11 +11,15 @@
 //       factors / the factor of the symmetry class / the factor of the block pair; apply=false restores (<= 4 ulp);
 //   (3) fixed points of iterate_efficiencies / iterate_geo_norm / iterate_block_norm on exact model data; all numbers are
 //       small integers times powers of two, so every float32 operation is exact and the comparison is bit-exact
-//       (independent of summation order); a second run with generic random factors uses a computed band;
+//       (independent of summation order); a second run with generic random factors uses a computed band; the "version
+//       without model" of iterate_efficiencies / make_fan_sum_data is checked the same way with data generated from the
+//       unit model through the FanProjData route and through make_fan_sum_data(sums, efficiencies, max_ring_diff, half_fan);
 //   (4) KL(data || model) (each LOR once, float64, independent of STIR) does not increase over any iterate_efficiencies
 //       sweep on Poisson data; STIR's KL(FanProjData) is checked where it is proportional to that sum;
 //   (5) the same for the 2D (DetPairData) variants on one sinogram (scanners without virtual crystals);
-//   (6) ML_estimate_component_based_normalisation run in ctx.tmpdir, KL reports captured from the info channel.
+//   (6) ML_estimate_component_based_normalisation run in ctx.tmpdir, KL reports captured from the info channel: no exception,
+//       parseable efficiency output of the physical dimensions, reported KL non-increasing over the efficiency sub-iterations
+//       of every outer iteration (where STIR's KL value is proportional to the KL distance: compressed max ring difference 0).
 #include "common/verif.h"
 #include "common/gen.h"
 #include "stir/ML_norm.h"
